@@ -313,11 +313,22 @@ def relabelled(s3, rel):
     for ri, r in enumerate(s3.residues):
         first_number.setdefault((piece_of[ri], r.chain), None)
 
+    runs = rel.get("icode_runs", 0)
+    pos_in_piece = {}
+    for k in range(len(bounds) - 1):
+        kept = [ri for ri in range(bounds[k], bounds[k + 1]) if ri not in drops]
+        for p_, ri in enumerate(kept):
+            pos_in_piece[ri] = p_
+
     def ident_fn(ri, chain, number):
         k = piece_of[ri]
         nm = names[k % len(names)] + ("" if k < len(names) else str(k))
         # pieces that share a chain name are kept apart in numbering (no duplicate identities)
         earlier = sum(1 for q in range(k) if names[q % len(names)] + ("" if q < len(names) else str(q)) == nm)
+        if runs and ri in pos_in_piece:
+            # tRNA / rRNA style numbering: neighbours share a number and differ by insertion code (20, 20A, 20B, 21, ...)
+            p_ = pos_in_piece[ri]
+            return nm, 1 + p_ // runs + offsets[k % len(offsets)] + 3000 * earlier, (None if p_ % runs == 0 else chr(64 + p_ % runs))
         return nm, number + offsets[k % len(offsets)] + 3000 * earlier
 
     # a piece must not contain two source chains with clashing numbers: keep only structures
@@ -435,6 +446,7 @@ def st_cases(files):
                 "cuts": draw(st.lists(st.integers(1, 400), max_size=3)),
                 "drop": draw(st.lists(st.integers(0, 400), max_size=4)),
                 "offsets": draw(st.lists(st.sampled_from([0, 0, 1, 50, 100, -30, 1000]), min_size=1, max_size=4)),
+                "icode_runs": draw(st.sampled_from([0, 0, 0, 2, 3])),
                 "names": draw(st.sampled_from([["A", "B", "C", "D"], ["B", "A", "D", "C"], ["X", "X2", "Y", "Z"], ["A", "A", "B", "B"],
                                                 # a chain id that comes back after another chain (ligand-like nucleotides
                                                 # or HETATM residues listed after the other chains): two strands, one name
